@@ -230,7 +230,7 @@ def strip_counts(o):
 
 
 def run_traces(tag, traces):
-    impl = harness.run_traces("srv", [{k: v for k, v in t.items() if k not in ("hops", "memberships")} for t in traces], shards=min(8, max(1, len(traces))))
+    impl = harness.run_traces("srv", [{k: v for k, v in t.items() if k not in ("hops", "memberships", "group_counts")} for t in traces], shards=min(8, max(1, len(traces))))
     terms = ["hrun_obs %s" % show([h for h in t["hops"] if h is not None]) for t in traces]
     vals = coqrun.eval_terms(tag, IMPORTS, terms, shard_size=20)
     return impl, vals
@@ -250,7 +250,7 @@ def check(out, tier, seed, prop):
     hist = {}
     for t, v in zip(traces, vals):
         ob = impl[t["id"]]
-        slim = {k: x for k, x in t.items() if k not in ("hops", "memberships")}
+        slim = {k: x for k, x in t.items() if k not in ("hops", "memberships", "group_counts")}
         if "crash" in ob or "init_err" in ob:
             stats["crashes"] += 1
             if reported < 3:
@@ -310,6 +310,11 @@ def check(out, tier, seed, prop):
                 bad = (kind, i, {"impl": got, "model": want, "what": "a valid command (accepted by the sequential-map specification) fails on the server" if kind == "spec-monitor" else "response differs"})
                 break
         if not bad:
+            for (i, want) in t.get("group_counts", []):
+                if i < len(outs) and (outs[i].get("r") != "ok" or outs[i].get("members_count") != want):
+                    bad = ("spec-monitor", i, "members of a consumer group: expected %d live members, server says %s" % (want, json.dumps(outs[i])[:300]))
+                    break
+        if not bad:
             for (i, want) in t.get("memberships", []):
                 if i < len(outs) and (outs[i].get("r") != "ok" or outs[i].get("groups") != want):
                     bad = ("spec-monitor", i, "client membership count after deletions: expected %d, server says %s" % (want, json.dumps(outs[i])))
@@ -345,20 +350,32 @@ def members_trace(rng, tid):
             for gid, gname in ((1, "e5"), (2, "f")):
                 add({"op": "create_group", "stream": sid, "topic": tid_, "name": gname, "id": gid}, C("Cmd", C("CreateGroup", C("ById", sid), C("ById", tid_), C("Some", gid), nm(gname))))
                 groups.append((sid, tid_, gid))
-    member = {"c1": set(), "c2": set()}
+    member = {"c1": set(), "c2": set(), "c3": set()}
+    # c3 belongs to an ordinary user (allowed everything): deleting that user ends its session and its memberships
+    add({"op": "create_user", "user": "member-user", "password": "member-secret", "perms": {"g": 1023, "streams": None}}, C("Cmd", C("CreateUser", None, nm("member-user"), True)))
+    user_alive = [True]
     for c in member:
-        add({"op": "login", "c": c, "user": "iggy", "password": "iggy"}, None)
+        if c == "c3":
+            add({"op": "login", "c": c, "user": "member-user", "password": "member-secret"}, None)
+        else:
+            add({"op": "login", "c": c, "user": "iggy", "password": "iggy"}, None)
         for g in rng.sample(groups, rng.randrange(2, 6)):
             add({"op": "join_group", "c": c, "stream": g[0], "topic": g[1], "group": g[2]}, None)
             member[c].add(g)
     alive = set(groups)
     expect = []
+    group_counts = []
     for _ in range(rng.randrange(3, 8)):
-        k = rng.choice(["delete_group", "delete_topic", "delete_stream", "leave"])
+        k = rng.choice(["delete_group", "delete_group", "delete_topic", "delete_stream", "leave", "delete_user"])
         if not alive:
             break
         g = rng.choice(sorted(alive))
-        if k == "delete_group":
+        if k == "delete_user":
+            if user_alive[0]:
+                add({"op": "delete_user", "uid": "member-user"}, C("Cmd", C("DeleteUser", C("ByName", nm("member-user")))))
+                user_alive[0] = False
+                member["c3"] = set()
+        elif k == "delete_group":
             add({"op": "delete_group", "stream": g[0], "topic": g[1], "group": g[2]}, C("Cmd", C("DeleteGroup", C("ById", g[0]), C("ById", g[1]), C("ById", g[2]))))
             alive.discard(g)
         elif k == "delete_topic":
@@ -375,13 +392,19 @@ def members_trace(rng, tid):
                 add({"op": "leave_group", "c": c, "stream": h[0], "topic": h[1], "group": h[2]}, None)
                 member[c].discard(h)
         for c in sorted(member):
+            if c == "c3" and not user_alive[0]:
+                continue
             add({"op": "get_me", "c": c}, None)
             expect.append((len(ops) - 1, len(member[c] & alive)))
+        # the groups' own view: exactly the live memberships
+        for h in sorted(alive):
+            add({"op": "get_group", "stream": h[0], "topic": h[1], "group": h[2]}, None)
+            group_counts.append((len(ops) - 1, sum(1 for c in member if h in member[c])))
         add({"op": "catalog"}, C("Look"))
     add({"op": "catalog"}, C("Look"))
     add({"op": "restart"}, C("Restart"))
     add({"op": "catalog"}, C("Look"))
-    return {"id": tid, "cfg": {"req": 1000, "seg_size": 1000000, "cache": False}, "ops": ops, "hops": hops, "memberships": expect}
+    return {"id": tid, "cfg": {"req": 1000, "seg_size": 1000000, "cache": False}, "ops": ops, "hops": hops, "memberships": expect, "group_counts": group_counts}
 
 
 def corpus():
